@@ -285,9 +285,10 @@ class Prog:
         self.globals[name] = Var(name, typ, cell=True)
         return name
 
-    def func(self, name, params=(), results=(), named=(), recv=None):
+    def func(self, name, params=(), results=(), named=(), recv=None, noenter=False):
         f = Func(self, name, params=params, results=results, named=named, recv=recv)
         f.is_closure = False
+        f.noenter = noenter     # call-free accessor: no enter() line in the Go text (the flat code keeps its "enter")
         self.order.append(name)
         return f
 
@@ -324,6 +325,7 @@ class Prog:
                     if l.startswith("func %s %s(" % (recv, m)):
                         decl["%s.%s" % (tn, m)] = i
         flat["decl"] = decl
+        flat["noenter"] = sorted(self.decl[n] for n, f_ in self.funcs.items() if getattr(f_, "noenter", False) and n in self.decl)
         flat["main"] = "main"
         flat["meta"] = self.meta
         return "\n".join(self.lines) + "\n", flat
@@ -349,7 +351,8 @@ class Prog:
         else:
             dl = self._line(header + "func(%s)%s {" % (sig_params, sig_res))
         self.decl[f.name] = dl
-        self._line("\tenter()")
+        if not getattr(f, "noenter", False):
+            self._line("\tenter()")
         code.append(I("enter", n=dl))
         # locals are declared up front (flat scope); cells are allocated in the flat code
         for v in f.locals:
